@@ -165,3 +165,17 @@ package handler
 //@   ensures[C15:names-in-field-order] result0 ==> forall(k int, 0 <= k && k < rtNumField(structOf(atype)) && fieldListed(rtField(structOf(atype), k)) ==> result1[cntListed(structOf(atype), k)] == fieldKey(rtField(structOf(atype), k)))
 //@   loop 1 invariant 0 <= i && i <= rtNumField(structOf(atype)) && len(names) == cntListed(structOf(atype), i) && rtKind(structOf(atype)) == 25
 //@   loop 1 invariant forall(k int, 0 <= k && k < i && fieldListed(rtField(structOf(atype), k)) ==> names[cntListed(structOf(atype), k)] == fieldKey(rtField(structOf(atype), k)))
+
+// Check accepts exactly the documented schemes: a function of one or two
+// parameters, the first a context.Context, not variadic, with one result or
+// two of which the second is error. Everything else is an error and no
+// FuncInfo. The accepted FuncInfo records the types as documented.
+//@ pure sigOK(t Iface) Bool = rtKind(t) == 19 && (rtNumIn(t) == 1 || rtNumIn(t) == 2) && rtIn(t, 0) == ctxType && !rtVariadic(t) && (rtNumOut(t) == 1 || (rtNumOut(t) == 2 && rtOut(t, 1) == errType))
+//@ func Check
+//@   fresh result0
+//@   ensures[C15:accepts-exactly-documented] (result1 == nil) == (fn != nil && sigOK(rtOf(fn)))
+//@   ensures[C15:rejected-no-info] (result1 != nil) == (result0 == nil)
+//@   ensures[C15:info-type] result1 == nil ==> result0.Type == rtOf(fn) && result0.fn == fn && result0.allowArray && !result0.strictFields
+//@   ensures[C15:info-argument] result1 == nil ==> result0.Argument == (rtNumIn(rtOf(fn)) == 2 ? rtIn(rtOf(fn), 1) : nil)
+//@   ensures[C15:info-result] result1 == nil ==> result0.ReportsError == (rtOut(rtOf(fn), rtNumOut(rtOf(fn)) - 1) == errType) && result0.Result == ((rtNumOut(rtOf(fn)) == 2 || !result0.ReportsError) ? rtOut(rtOf(fn), 0) : nil)
+//@   ensures[C15:info-posnames] result1 == nil && result0.Argument != nil && rtKind(structOf(result0.Argument)) == 25 ==> len(result0.posNames) == cntListed(structOf(result0.Argument), rtNumField(structOf(result0.Argument)))
